@@ -21,7 +21,10 @@ FN = ["a", "b", "c", "d"]
 def class_source(kind, sig, name):
     fields = []
     for j in range(1, sig["n"] + 1):
-        fields.append(f"    {FN[j - 1]}: int" + ("" if j <= sig["r"] else f" = {20 + j}"))
+        if sig.get("dk") == "none1" and j == sig["r"] + 1:
+            fields.append(f"    {FN[j - 1]}: Optional[int] = None")
+        else:
+            fields.append(f"    {FN[j - 1]}: int" + ("" if j <= sig["r"] else f" = {20 + j}"))
     if kind == "dataclass":
         return f"@dataclass\nclass {name}:\n" + "\n".join(fields) + "\n"
     if kind == "dataclass_derived":
@@ -104,9 +107,9 @@ def run(prop, tier):
     moddir = tlcrun.fresh_dir(common.outdir(prop, "mod"))
     modpath = os.path.join(moddir, "c06_queries.py")
     classes = {}
-    lines = ["from dataclasses import dataclass, field\nfrom typing import NamedTuple\n\n"]
+    lines = ["from dataclasses import dataclass, field\nfrom typing import NamedTuple, Optional\n\n"]
     for c in cases:
-        nm = f"{ {'dataclass': 'DC', 'namedtuple': 'NT', 'dataclass_initfalse': 'DI', 'dataclass_kwonly': 'DK', 'dataclass_derived': 'DD'}[c['cls']] }_{c['sig']['n']}_{c['sig']['r']}"
+        nm = f"{ {'dataclass': 'DC', 'namedtuple': 'NT', 'dataclass_initfalse': 'DI', 'dataclass_kwonly': 'DK', 'dataclass_derived': 'DD'}[c['cls']] }_{c['sig']['n']}_{c['sig']['r']}" + ("_n" if c["sig"]["dk"] == "none1" else "")
         if nm not in classes:
             classes[nm] = True
             lines.append(class_source(c["cls"], c["sig"], nm) + "\n\n")
